@@ -360,14 +360,13 @@ def _fbd_inv(c, v, v0, k):
     else:
         row = lambda q: _all_rows(c, M, lambda m: _at(BS, m, q) == c.If(S['overl'](q), S['val'](q, m), 0))
     done = c.Forall(0, k, row)
-    if c.mode == 'sym' and not getattr(c, 'assuming', False) and v.has('save_start') and len(v.ghost('searchsorted')) >= 2:
+    if c.mode == 'sym' and not getattr(c, 'assuming', False) and k is not None and len(v.ghost('searchsorted')) >= 2:
         last = z3.simplify(k - 1)
         s1, s2 = v.ghost('searchsorted')[-2:]                 # what the two searchsorted calls of this iteration returned
         ST, SP = S['ST'](last), S['SP'](last)
         lo, hi = S['lo'](last), S['hi'](last)
         Nn = to_int(N)
         done = c.hint(done,
-                      c.And(v.wn_min == lo, v.wn_max == hi),
                       # the searchsorted results are the spec counts (uniqueness of the least index for sorted arrays)
                       c.And(0 <= last, last < to_int(B), 0 <= s1, s1 <= Nn, 0 <= s2, s2 <= Nn - 1), S['sorted'],
                       z3.Implies(z3.And(0 <= s1, s1 < Nn), MAX[s1] > lo),
@@ -378,7 +377,7 @@ def _fbd_inv(c, v, v0, k):
                       c.pure(z3.Implies(s2 < SP, MIN[s2 + 1] <= hi), S['sorted'], 0 <= last, last < to_int(B), 0 <= s2, s2 <= Nn - 1),
                       c.pure(z3.And(0 <= SP, SP <= Nn - 1, z3.Implies(SP < Nn - 1, MIN[SP + 1] > hi)), S['sorted'], 0 <= last, last < to_int(B)),
                       z3.Implies(SP < s2, MIN[SP + 1] <= hi), s2 == SP,
-                      c.And(v.save_start == S['start'](last), v.save_stop == S['stop'](last)),
+                      c.And(c.Min(s1, N - 1) == S['start'](last), c.Min(s2, N - 1) == S['stop'](last)),
                       c.Forall(0, last, row), row(last), c.pure_ground(done, c.Forall(0, last, row), row(last), last >= 0), final_uses=1)
     d['done'] = done
     return d
